@@ -117,7 +117,8 @@ func (c *controlConn) heartBeat() {
 		case error:
 			goto reconn
 		default:
-			panic(fmt.Sprintf("gocql: unknown frame in response to options: %T", resp))
+			// not a response to OPTIONS, the peer is misbehaving
+			goto reconn
 		}
 
 	reconn:
